@@ -208,6 +208,23 @@ def XW.cmd (s : XW) : XCmd → XW
 
 def XW.run (s : XW) (cs : List XCmd) : XW := cs.foldl XW.cmd s
 
+/-! ### two wrappers side by side over one store -/
+
+structure X2 where
+  m : Mem
+  log0 : List Entry
+  log1 : List Entry
+  deriving Repr, DecidableEq
+
+def X2.w (s : X2) (i : Bool) : XW := ⟨s.m, if i then s.log1 else s.log0⟩
+def X2.put (s : X2) (i : Bool) (w : XW) : X2 :=
+  if i then { s with m := w.m, log1 := w.log } else { s with m := w.m, log0 := w.log }
+
+def X2.step (s : X2) (iop : Bool × XOp) : X2 := s.put iop.1 ((s.w iop.1).step iop.2)
+def X2.run (s : X2) (ops : List (Bool × XOp)) : X2 := ops.foldl X2.step s
+def X2.rollback (s : X2) (i : Bool) : X2 := s.put i (s.w i).rollback
+def X2.commit (s : X2) (i : Bool) : X2 := s.put i (s.w i).commit
+
 /-! ### a wrapper over a wrapper -/
 
 structure Nest where
